@@ -70,6 +70,9 @@ def _strict_eligible(rs, key):
     asynchronously delivered position (so failures surface through the awaited gather path,
     which cancels and awaits siblings) and no list source fails."""
     pl = rs.planner
+    # argument coercion errors are raised synchronously, whatever the delivery of the field
+    if any(path[0] == key for path in getattr(rs.result, "no_invoke", ())):
+        return False
     for path, fp in pl.fields.items():
         if path[0] == key and fp.fault and fp.delivery == "sync":
             return False
